@@ -629,7 +629,10 @@ def _random_shard(args):
     r, verdicts = validate_traces(traces, c, meta, kd)
     for row, (tid, l, clause) in zip(rows, verdicts):
         row["verdict"], row["at"] = clause, l
-    return {"rows": rows, "events": sum(len(t["reqs"]) for t in traces), "distinct": r.distinct}
+    # only what the parent needs crosses the process boundary: rows TLC did not simply accept, a few samples, counts
+    return {"rows": [row for row in rows if row["verdict"] != "ok"], "n": len(rows), "samples": rows[:2],
+            "accepted": sum(row["verdict"] == "ok" for row in rows),
+            "events": sum(len(t["reqs"]) for t in traces), "distinct": r.distinct}
 
 
 # ------------------------------------------------------------------------------ verdict handling
@@ -726,7 +729,7 @@ def run(rep):
 
     # ---- one process pool (J) for everything on the Python side; the seeded random leg and the sensitivity runs start
     #      at once, stage 1 (strict design) runs beside stage 1' + 2 (Model with recorded deviations, emission)
-    nrand, per = (2000, 500) if quick else (60000, 3000)
+    nrand, per = (2000, 500) if quick else (150000, 3000)
     canary_groups = [list(meta["StructKw"])] if quick else [[kw] for kw in meta["StructKw"]]
     res, scenarios = {}, []
     wtlc = max(1, J // 2)
@@ -852,13 +855,15 @@ def run(rep):
             rep.drift.append(f"recorded deviation {sig} is enabled in the Model but no real trace exhibited it")
     rtally = {"ok": 0, "known": 0, "drift": 0, "violation": 0}
     for o in routs:
-        rep.traces += len(o["rows"])
+        rep.traces += o["n"]
         rep.evaluations += o["events"]
+        rtally["ok"] += o["accepted"]
+        by_verdict["ok"] = by_verdict.get("ok", 0) + o["accepted"]
         for row in o["rows"]:
             rtally[judge(rep, row, findings)] += 1
             by_verdict[row["verdict"]] = by_verdict.get(row["verdict"], 0) + 1
     rep.extra.update({"scenarios_replayed": replayed, "stage3_expectation_mismatches": stage3_diff,
-                      "emitted_tally": tally, "random_traces": sum(len(o["rows"]) for o in routs), "random_tally": rtally,
+                      "emitted_tally": tally, "random_traces": sum(o["n"] for o in routs), "random_tally": rtally,
                       "tlc_verdicts": by_verdict, "rules_verdict_classes_over_emitted_pairs": verdict_classes,
                       "keywords_with_differing_pair": len(differing),
                       "structured_field_variants_vs_base": len(variants_seen),
@@ -867,7 +872,7 @@ def run(rep):
         for row in o["rows"][:3]:
             rep.sample({"scenario": row["sc"], "expected": row["exp"], "observed": row["obs"], "tlc_verdict": row["verdict"]}, cap=3)
     for o in routs[:1]:
-        for row in o["rows"][:2]:
+        for row in o["samples"]:
             rep.sample({"scenario": row["sc"], "observed": row["obs"], "tlc_verdict": row["verdict"]}, cap=5)
     rep.exhaustive = True
     if vacuity and not rep.violations:
